@@ -40,7 +40,9 @@ INFO = [(b':status', b'103')]
 TRAILERS = [(b'x-trailer', b'v')]
 AVOID = set()
 # refusals decided before any state machine is consulted: the sequence may continue after them
-INERT_REFUSALS = {'no-such-stream', 'stream-closed', 'stream-id-too-low', 'push-disabled', 'too-many-streams',
+INERT_REFUSALS = {'message:not-a-request', 'message:second-final-block', 'message:trailers-without-end-stream',
+                  'message:trailers-before-response', 'message:informational-with-end-stream', 'client-cannot-advertise',
+                  'no-such-stream', 'stream-closed', 'stream-id-too-low', 'push-disabled', 'too-many-streams',
                   'client-cannot-push', 'connection-closed'}
 
 
